@@ -11,12 +11,15 @@ def scenarios(t):
     i = 0
     for fe in ("byte-le", "sample", "channel"):
         for declared in (False, True):
-            for st in ("none", {"frames": 1}):
+            for st in (("none", {"frames": 1}) if t == "quick" else ("none", {"frames": 1}, {"seconds": 1}, None)):
                 for start in ((0, 7) if t == "thorough" or fe == "sample" else (0,)):
-                    i += 1
-                    sc.append({"id": "enc%d" % i, "kind": "write", "what": "encode", "fe": fe, "declared": declared, "start": start,
-                               "flush": fe == "byte-le",
-                               "opts": {"block_size": 16, "seektable": st, "padding": 40 if (i % 3) else -1}})
+                    for bsz in ((16,) if t == "quick" else (16, 64)):
+                        i += 1
+                        opts = {"block_size": bsz, "padding": 40 if (i % 3) else -1}
+                        if st is not None:
+                            opts["seektable"] = st
+                        sc.append({"id": "enc%d" % i, "kind": "write", "what": "encode", "fe": fe, "declared": declared, "start": start,
+                                   "flush": fe == "byte-le", "opts": opts})
     sc.append({"id": "stream", "kind": "write", "what": "stream"})
     sc.append({"id": "write_blocks", "kind": "write", "what": "write_blocks"})
     for e in ("equal", "grow", "shrink", "rebuild", "rebuild-sinkfault"):
